@@ -52,6 +52,17 @@ def lshape():
     return v, np.array(f)
 
 
+def convex_copies_overlap(v, shift, margin=1e-3):
+    """do conv(v) and conv(v) + shift overlap with some room?  0 lies `margin`·size inside the Minkowski difference"""
+    from scipy.spatial import ConvexHull
+    d = (v[:, None, :] - (v + shift)[None, :, :]).reshape(-1, 3)
+    try:
+        h = ConvexHull(d)
+    except Exception:  # noqa: BLE001  (degenerate difference body)
+        return False
+    return bool(h.equations[:, 3].max() < -margin * np.ptp(v, axis=0).max())
+
+
 def scramble(rng, v, f):
     perm = np.arange(len(v))
     rng.shuffle(perm)
@@ -143,7 +154,9 @@ def sweep(ctx, n):
             v4, f4 = np.concatenate([v, v + shift]), np.concatenate([f, f + len(v)])
             m = magpy.magnet.TriangularMesh(vertices=v4, faces=f4, polarization=pol, check_disconnected="ignore", check_selfintersecting="ignore", reorient_faces="ignore")
             m.check_selfintersecting(mode="ignore")
-            if m.status_selfintersecting is not True:
+            # the copies of a thin convex body translated by a fixed fraction of the bounding box can be DISJOINT (thin prisms, flat
+            # hulls: the two formerly recorded "findings" were such cases): demand a flag only when they properly overlap
+            if m.status_selfintersecting is not True and (kind == "lshape" or convex_copies_overlap(v, shift)):
                 bad(f"status:{kind}:selfintersection-not-detected", "two interpenetrating parts not reported self-intersecting")
         # bodies made of several disjoint closed parts where WHOLE parts are given inside-out (every directed edge still occurs
         # once): after the default reorientation every part must point outwards and H equals the sum of the Cuboid fields
